@@ -56,6 +56,9 @@ CLAIMED = {
  "C02": ("expression-DAG equivalence of the two leaf encoders and tree-hash/salt arguments; guard analysis of the challenge draw; parameter-validator lower-bound analysis; commit-path guard analysis of removal/burn",
          "builder and verifier hash the same leaf term with the same tree hash and salting; every challenge draw is behind n>0 with n derived from FileSize and a validated-positive chunk-size parameter; removal and burn happen only on the miss branch. The proof-window clause over all schedules is NOT decided (schedule arithmetic).",
          "DESIGN.md §5 C02"),
+ "C06": ("determinism lint over the consensus call graph: forbidden-API census, map-range body classification, RNG typestate (create→Seed→draw on all paths) with seed provenance, forward float-taint, proto map-field census",
+         "no nondeterministic source, order-sensitive map range, unseeded or non-consensus-seeded generator, float-to-state flow or proto map in stored types anywhere in the custom code reachable from Msg handlers, BeginBlock, InitGenesis, the wasm dispatcher and upgrade code. Third-party library determinism and gas equality are trusted, not decided.",
+         "DESIGN.md §5 C06"),
 }
 NA = {}
 props = [json.loads(l) for l in open('properties.jsonl')]
